@@ -28,11 +28,13 @@ def c3(ctx):
 
 def c5(ctx):
     notes.beat_formula(ctx)
+    notes.keysound_extraction(ctx)
+    notes.columns_rule(ctx)
 
 
 CLAUSES = [
     ("C08.1", "every exit has written a measure (must-pass-through)", c1),
     ("C08.2", "skipped players / measures / rows are filled; separators agree with the reader", c2),
     ("C08.3-4", "row count and row key; a written cell is the note's own text", c3),
-    ("C08.5", "the reader as the inverse: beat formula, one note per cell with the cell's own fields (shared with C07)", c5),
+    ("C08.5", "the reader as the inverse: beat formula, one note per cell with the cell's own fields, keysound brackets, reported column count (shared with C07)", c5),
 ]
